@@ -177,6 +177,10 @@ class StmtMixin:
                 base.heap.pop(k, None)
                 for fk in [fk for fk in base.facts if mentions(fk, ("attr",) + k)]:
                     del base.facts[fk]
+                # a local bound before the loop to such a field keeps the value it had then, not the current one
+                for nm, v in list(base.env.items()):
+                    if nm not in names and isinstance(v, tuple) and mentions(v, ("attr",) + k):
+                        base.env[nm] = ("old", v, loop_id)
             for rg in touched_regs:
                 base.hits = {h for h in base.hits if h[0] != rg}
                 self._drop_reg_facts(base, rg)
@@ -213,6 +217,9 @@ class StmtMixin:
             st.heap.pop(k, None)
             for fk in [fk for fk in st.facts if mentions(fk, ("attr",) + k)]:
                 del st.facts[fk]
+            for nm, v in list(st.env.items()):
+                if nm not in names and isinstance(v, tuple) and mentions(v, ("attr",) + k):
+                    st.env[nm] = ("old", v, loop_id)
         for rg in touched_regs:
             st.hits = {h for h in st.hits if h[0] != rg}
             self._drop_reg_facts(st, rg)
